@@ -135,7 +135,7 @@ impl Check for FdCheck {
         format!(
             "case = CLP(FD) program (1-4 variables, interval and sparse domains in [-3,4], <=5(7) constraints of every kind \
              with operand aliasing and constants, arbitrary posting order, ==, optional conde, query term a variable / list / \
-             nested / improper list with hidden variables) x (iteration-order policy over run_constraints, \
+             nested / improper list / #[compound] term (Pair, Duo) around, inside or next to lists, with hidden variables) x (iteration-order policy over run_constraints, \
              process_extension_fd and the labeling order; yields). Oracle R3: brute force over the domain product. {} \
              distinct = (program, decision trace); non-trivial = the program has at least one constraint and the oracle \
              compared at least one answer or verified an expected-empty result",
